@@ -23,10 +23,10 @@ Inductive SBody : str -> Prop :=
 | sb_u h1 h2 h3 h4 s : is_hex h1 = true -> is_hex h2 = true -> is_hex h3 = true -> is_hex h4 = true ->
     SBody s -> SBody ("\"%byte :: "u"%byte :: h1 :: h2 :: h3 :: h4 :: s).
 
-Definition q : byte := """".
+Definition dq : byte := """".
 Inductive JV : str -> Prop :=
 | jv_int ds : ds <> [] -> forallb is_digit ds = true -> (length ds = 1 \/ hd "0"%byte ds <> "0"%byte) -> JV ds
-| jv_str b : SBody b -> JV (q :: b ++ [q])
+| jv_str b : SBody b -> JV (dq :: b ++ [dq])
 | jv_arr0 w : W w -> JV ("["%byte :: w ++ ["]"%byte])
 | jv_arr es : JElems es -> JV ("["%byte :: es ++ ["]"%byte])
 | jv_obj0 w : W w -> JV ("{"%byte :: w ++ ["}"%byte])
@@ -36,8 +36,8 @@ with JElems : str -> Prop :=
 | je_cons w1 v w2 rest : W w1 -> JV v -> W w2 -> JElems rest -> JElems (w1 ++ v ++ w2 ++ ","%byte :: rest)
 with JMembers : str -> Prop :=
 | jm_one w1 k w2 w3 v w4 : W w1 -> SBody k -> W w2 -> W w3 -> JV v -> W w4 ->
-    JMembers (w1 ++ (q :: k ++ [q]) ++ w2 ++ ":"%byte :: w3 ++ v ++ w4)
+    JMembers (w1 ++ (dq :: k ++ [dq]) ++ w2 ++ ":"%byte :: w3 ++ v ++ w4)
 | jm_cons w1 k w2 w3 v w4 rest : W w1 -> SBody k -> W w2 -> W w3 -> JV v -> W w4 -> JMembers rest ->
-    JMembers (w1 ++ (q :: k ++ [q]) ++ w2 ++ ":"%byte :: w3 ++ v ++ w4 ++ ","%byte :: rest).
+    JMembers (w1 ++ (dq :: k ++ [dq]) ++ w2 ++ ":"%byte :: w3 ++ v ++ w4 ++ ","%byte :: rest).
 Definition JsonText (s : str) : Prop := exists w1 v w2, W w1 /\ JV v /\ W w2 /\ s = w1 ++ v ++ w2.
 
